@@ -62,9 +62,12 @@ class Check(BaseCheck):
         if tier == 'quick':
             for i in range(16):
                 specs.append({'campaign': 'pairs', 'pool': 50, 'seed': seed, 'i': i, 'triples': 6000})
+            specs.append({'campaign': 'instants', 'seed': seed, 'n': 600})
         else:
             for i in range(64):
                 specs.append({'campaign': 'pairs', 'pool': 110, 'seed': seed, 'i': i, 'triples': 200000})
+            for i in range(8):
+                specs.append({'campaign': 'instants', 'seed': seed, 'i': i, 'n': 8000})
         return specs
 
     def run(self, spec, rec):
@@ -91,6 +94,8 @@ class Check(BaseCheck):
         try:
             if spec['campaign'] == 'sentinels':
                 self.sentinels(rec)
+            elif spec['campaign'] == 'instants':
+                self.instants(spec, rec)
             else:
                 self.pairs(spec, rec)
         finally:
@@ -210,6 +215,50 @@ class Check(BaseCheck):
             if r1['<'] and r2['<'] and not r3['<']:
                 rec.violation('C07/law:transitivity:%s' % '-'.join(GV.broad_class(vals[x]) for x in (i, j, k)), a=vals[i], b=vals[j], c=vals[k])
             rec.count('triples_checked')
+
+    def instants(self, spec, rec):
+        """Date-times closer together than the serial resolves (microseconds apart), together with the number that N() reports for one of them.
+        Which of < = > holds between two such instants is not claimed - but the laws are: exactly one holds, the derived relations follow,
+        a<b iff b>a, and <= and = are transitive across the date-times and the number alike (dates order by their serial)."""
+        rnd = self.rng(spec)
+        for _ in range(spec['n']):
+            y = rnd.choice([1950, 2024, 2500, 5000, 9000, 9999, rnd.randint(1901, 9998)])
+            a = datetime.datetime(y, rnd.randint(1, 12), rnd.randint(1, 28), rnd.randint(0, 23), rnd.randint(0, 59), rnd.randint(0, 59), rnd.randrange(1000000))
+            b = a + datetime.timedelta(microseconds=rnd.choice([1, 1, 2, 10, 100, 400, 999]))
+            n = self.e.val('N(v_a)', v_a=a) if hasattr(self.e, 'val') else None
+            if not (isinstance(n, (int, float)) and not isinstance(n, bool)):
+                rec.inconcl('N(date-time) did not give a number: %r' % (n,))
+                return
+            vals = [a, n, b]
+            res = {}
+            for i in range(3):
+                for j in range(3):
+                    got, _ = self.six(vals[i], vals[j], 'var')
+                    rec.case()
+                    if any(not isinstance(v, bool) for v in got.values()):
+                        rec.violation('C07/result-not-a-logical:' + mech(vals[i], vals[j]), a=vals[i], b=vals[j], got=got)
+                        continue
+                    res[(i, j)] = got
+                    if [got['<'], got['='], got['>']].count(True) != 1:
+                        rec.violation('C07/law:trichotomy:' + mech(vals[i], vals[j]) + ':instants-closer-than-the-serial-resolves', a=vals[i], b=vals[j], got=got)
+                    if got['<='] != (got['<'] or got['=']) or got['>='] != (got['>'] or got['=']) or got['<>'] != (not got['=']):
+                        rec.violation('C07/law:derived-relations:' + mech(vals[i], vals[j]) + ':instants-closer-than-the-serial-resolves', a=vals[i], b=vals[j], got=got)
+            if len(res) < 9:
+                continue
+            for (i, j), g in res.items():
+                r = res[(j, i)]
+                if g['<'] != r['>'] or g['='] != r['=']:
+                    rec.violation('C07/law:a<b-iff-b>a:' + mech(vals[i], vals[j]) + ':instants-closer-than-the-serial-resolves', a=vals[i], b=vals[j], forward=g, backward=r)
+            for i in range(3):
+                for j in range(3):
+                    for k in range(3):
+                        le = lambda r_: r_['<'] or r_['=']
+                        if le(res[(i, j)]) and le(res[(j, k)]) and not le(res[(i, k)]):
+                            rec.violation('C07/law:transitivity:instants-closer-than-the-serial-resolves', a=vals[i], b=vals[j], c=vals[k], ab=res[(i, j)], bc=res[(j, k)], ac=res[(i, k)])
+                        if res[(i, j)]['='] and res[(j, k)]['='] and not res[(i, k)]['=']:
+                            rec.violation('C07/law:transitivity-of-equality:instants-closer-than-the-serial-resolves', a=vals[i], b=vals[j], c=vals[k])
+            rec.nt(('instants', a.isoformat(), b.isoformat()))
+            rec.count('instant_triples')
 
     def sentinels(self, rec):
         T = datetime.datetime
